@@ -2,8 +2,9 @@
  *   __cstl_bintree_rotate, cstl_rbtree_fix_insertion, cstl_rbtree_fix_deletion.
  *
  * Each step is called on a symbolic NEIGHBOURHOOD: a handful of distinct node objects whose
- * presence, orientation (left/right mirror), colours and position under the parent are chosen
- * nondeterministically, surrounded by "atoms" = opaque subtrees represented by one node with a
+ * presence, orientation (left/right mirror) and position under the parent are enumerated
+ * exhaustively (concrete pointers keep CBMC's formula small; colours that do not shape the case
+ * analysis, subtree contents and everything above stay nondeterministic), surrounded by "atoms" = opaque subtrees represented by one node with a
  * ghost black height and arbitrary children that the step must not touch.  The contract is the
  * CLRS case analysis stated on abstract quantities: in-order item sequence, black height of every
  * path through the neighbourhood, red-red pairs, parent back-links, frame.  It is asserted around
@@ -77,41 +78,32 @@ static struct cstl_rbtree_node vf_above;        /* the node above the neighbourh
 static struct cstl_rbtree_node vf_snap[NN];
 
 /* node i becomes an atom: black root, ghost black height h, arbitrary children it keeps */
-static struct cstl_bintree_node * vf_mk_atom(int i, int h, struct cstl_bintree_node * parent)
-{
-    struct cstl_bintree_node * junk1, * junk2;
-    if (nondet_bool()) return NULL;             /* the subtree may also be absent ...          */
-    vf_atom[i] = 1; vf_abh[i] = h;
-    vf_n[i].c = BLK;
-    vf_n[i].n.l = junk1; vf_n[i].n.r = junk2;   /* arbitrary: must come back untouched         */
-    vf_n[i].n.p = parent;
-    return BNP(i);
-}
 #define ATOM_OR_NULL(i, h, parent)  ((h) == 1 ? vf_mk_atom_h1(i, parent) : vf_mk_atom_req(i, h, parent))
 /* black height 1 is what a missing subtree has: an atom of height 1 is impossible (a black root
  * alone already gives 2), so height 1 means "absent" */
 static struct cstl_bintree_node * vf_mk_atom_h1(int i, struct cstl_bintree_node * parent) { (void)i; (void)parent; return NULL; }
+/* sentinels: what lies below an opaque subtree's root, beside and above the neighbourhood.  (Symbolic
+ * pointers here cost minutes and gigabytes per scenario; distinct fixed objects that must come back
+ * untouched serve the same purpose for the frame check.) */
+static struct cstl_rbtree_node vf_below[2], vf_beside, vf_far;
 static struct cstl_bintree_node * vf_mk_atom_req(int i, int h, struct cstl_bintree_node * parent)
 {
-    struct cstl_bintree_node * junk1, * junk2;
     vf_atom[i] = 1; vf_abh[i] = h;
-    vf_n[i].c = BLK; vf_n[i].n.l = junk1; vf_n[i].n.r = junk2; vf_n[i].n.p = parent;
+    vf_n[i].c = BLK; vf_n[i].n.l = &vf_below[0].n; vf_n[i].n.r = &vf_below[1].n; vf_n[i].n.p = parent;
     return BNP(i);
 }
 
 /* hang the neighbourhood rooted at top under the root slot, or under a node above (either side) */
-static void vf_place(struct cstl_bintree_node * top)
+static void vf_place(struct cstl_bintree_node * top, int pcase)
 {
-    int pcase = nondet_int();
     struct cstl_bintree_node * other;
-    __CPROVER_assume(pcase >= 0 && pcase <= 2);
     vf_top = top;
     vf_bt.size = nondet_size_t();
     if (pcase == 0) {
         vf_bt.root = top; top->p = NULL; vf_slot = &vf_bt.root;
     } else {
-        struct cstl_bintree_node * junk;
-        __CPROVER_assume(!__CPROVER_same_object(junk, vf_n) && junk != NULL);
+        struct cstl_bintree_node * junk = &vf_far.n;
+        other = &vf_beside.n;
         vf_bt.root = junk;                      /* somewhere further up: must stay untouched   */
         vf_above.n.p = junk; vf_above.c = nondet_bool() ? RED : BLK;
         top->p = &vf_above.n;
@@ -130,10 +122,12 @@ static void vf_atoms_untouched(void)
         }
     }
 }
-static void vf_orient(void)
+static void vf_orient(int mirror)
 {
-    if (nondet_bool()) { vf_l = __cstl_bintree_left; vf_r = __cstl_bintree_right; }
-    else               { vf_l = __cstl_bintree_right; vf_r = __cstl_bintree_left; }
+    int i;
+    if (!mirror) { vf_l = __cstl_bintree_left; vf_r = __cstl_bintree_right; }
+    else         { vf_l = __cstl_bintree_right; vf_r = __cstl_bintree_left; }
+    for (i = 0; i < NN; i++) { vf_atom[i] = 0; vf_abh[i] = 0; }
 }
 #define L(n) (*vf_l(n))
 #define R(n) (*vf_r(n))
@@ -141,21 +135,20 @@ static void vf_orient(void)
 #if defined(VF_S) && VF_S == 1
 /* ---- __cstl_bintree_rotate(bt, x, l, r): y = r(x) moves into x's place, x becomes l(y),
  *      l(y) becomes r(x); in-order sequence a x b y c unchanged ------------------------------ */
-void h_s_rotate(void)
+static void vf_rotate_case(int mirror, int pcase, int hasA, int hasB, int hasC)
 {
     struct cstl_bintree_node * x = BNP(0), * y = BNP(1);
-    int before[2 * NN], nb, k; size_t size0; struct cstl_bintree_node * root0, * slotother0;
+    int before[2 * NN], nb, k; size_t size0; struct cstl_bintree_node * root0;
     struct cstl_rbtree_node above0;
-    vf_orient();
-    L(x) = ATOM_OR_NULL(2, 2, x); if (nondet_bool()) L(x) = NULL;
+    vf_orient(mirror);
+    L(x) = hasA ? vf_mk_atom_req(2, 2, x) : NULL;
     R(x) = y; y->p = x;
-    L(y) = nondet_bool() ? vf_mk_atom_req(3, 2, y) : NULL;
-    R(y) = nondet_bool() ? vf_mk_atom_req(4, 2, y) : NULL;
+    L(y) = hasB ? vf_mk_atom_req(3, 2, y) : NULL;
+    R(y) = hasC ? vf_mk_atom_req(4, 2, y) : NULL;
     vf_n[0].c = nondet_bool() ? RED : BLK; vf_n[1].c = nondet_bool() ? RED : BLK;
-    vf_place(x);
+    vf_place(x, pcase);
     vf_nseq = 0; vf_inorder(vf_top, 0); nb = vf_nseq; for (k = 0; k < nb; k++) before[k] = vf_seq[k];
     vf_snapshot(); size0 = vf_bt.size; root0 = vf_bt.root; above0 = vf_above;
-    (void)slotother0;
     __cstl_bintree_rotate(&vf_bt, x, vf_l, vf_r);
     VF_ASSERT(*vf_slot == y && y->p == vf_snap[0].n.p, "rotate: y takes x's place under x's former parent (or as root)");
     VF_ASSERT(L(y) == x && x->p == y, "rotate: x becomes y's child on the rotation side");
@@ -167,6 +160,15 @@ void h_s_rotate(void)
     VF_ASSERT(vf_n[0].c == vf_snap[0].c && vf_n[1].c == vf_snap[1].c && vf_bt.size == size0, "rotate: colours and size untouched");
     VF_ASSERT(vf_slot == &vf_bt.root || (vf_bt.root == root0 && vf_above.n.p == above0.n.p && vf_above.c == above0.c &&
               (vf_slot == &vf_above.n.l ? vf_above.n.r == above0.n.r : vf_above.n.l == above0.n.l)), "rotate: nothing above the parent slot is written");
+}
+void h_s_rotate(void)
+{
+    int m, pc, a, b, c;
+    for (m = 0; m < 2; m++) for (pc = 0; pc < 3; pc++) for (a = 0; a < 2; a++) for (b = 0; b < 2; b++) for (c = 0; c < 2; c++) {
+        VF_SCEN(1);
+        vf_rotate_case(m, pc, a, b, c);
+    }
+    VF_REACH(1, "all 48 neighbourhood shapes visited");
     VF_END();
 }
 #endif
@@ -174,27 +176,24 @@ void h_s_rotate(void)
 #if defined(VF_S) && VF_S == 2
 /* ---- cstl_rbtree_fix_insertion(t, x, l, r): x and its parent p are red, p is the l-child of the
  *      black grandparent g; u = r(g) is the uncle -------------------------------------------- */
-void h_s_fix_insertion(void)
+static void vf_fi_case(int mirror, int pcase, int x_outer, int ucase, int h)
 {
     struct cstl_bintree_node * g = BNP(0), * p = BNP(1), * x = BNP(2), * u = NULL, * res;
-    int h = nondet_int(), before[2 * NN], nb, k, bh0, ucase = nondet_int();
-    _Bool x_outer = nondet_bool();
-    __CPROVER_assume(h >= 1 && h <= 3 && ucase >= 0 && ucase <= 2);
-    vf_orient();
+    int before[2 * NN], nb, k, bh0;
+    vf_orient(mirror);
     vf_n[0].c = BLK; vf_n[1].c = RED; vf_n[2].c = RED;
     L(g) = p; p->p = g;
     /* x is the outer (l) or inner (r) child of p; its sibling and its own children are subtrees of height h */
     if (x_outer) { L(p) = x; R(p) = ATOM_OR_NULL(5, h, p); } else { R(p) = x; L(p) = ATOM_OR_NULL(5, h, p); }
     x->p = p;
     L(x) = ATOM_OR_NULL(3, h, x); R(x) = ATOM_OR_NULL(4, h, x);
-    /* the uncle: absent (only possible for h == 1), red with two subtrees of height h, or a black subtree of height h */
-    if (ucase == 0) { __CPROVER_assume(h == 1); R(g) = NULL; }
+    /* the uncle: absent (only possible for h == 1), red over two subtrees of height h, or a black subtree of height h */
+    if (ucase == 0) { R(g) = NULL; }
     else if (ucase == 1) { u = BNP(6); vf_n[6].c = RED; R(g) = u; u->p = g; L(u) = ATOM_OR_NULL(7, h, u); R(u) = ATOM_OR_NULL(8, h, u); }
-    else { __CPROVER_assume(h >= 2); u = vf_mk_atom_req(6, h, g); R(g) = u; }
-    vf_place(g);
+    else { u = vf_mk_atom_req(6, h, g); R(g) = u; }
+    vf_place(g, pcase);
     bh0 = vf_bh(vf_top, 0);
-    __CPROVER_assume(bh0 == h + 1);                                  /* pre: every path through g has the same black count */
-    __CPROVER_assume(vf_rr(vf_top, 0) == 1);                         /* pre: the only red-red pair is (p, x)               */
+    VF_ASSERT(bh0 == h + 1 && vf_rr(vf_top, 0) == 1, "fix_insertion pre-state: equal black counts, the only red-red pair is (parent, x)");
     vf_nseq = 0; vf_inorder(vf_top, 0); nb = vf_nseq; for (k = 0; k < nb; k++) before[k] = vf_seq[k];
     vf_snapshot();
     res = cstl_rbtree_fix_insertion(&vf_bt, x, vf_l, vf_r);
@@ -207,19 +206,24 @@ void h_s_fix_insertion(void)
         for (k = 0; k < nb && k < vf_nseq; k++) VF_ASSERT(vf_seq[k] == before[k], "fix_insertion: the in-order sequence is unchanged");
         vf_atoms_untouched();
         if (ucase == 1) {
-            /* red uncle: recolour, the violation (if any) moves two levels up */
             VF_ASSERT(res == g && top == g && COL(g) == RED && COL(p) == BLK && COL(u) == BLK, "fix_insertion (red uncle): parent and uncle black, grandparent red, continue from the grandparent");
             VF_ASSERT(vf_rr(top, 0) == 0, "fix_insertion (red uncle): no red-red pair left inside the neighbourhood");
         } else {
-            /* black / absent uncle: one or two rotations, done */
             VF_ASSERT(COL(top) == BLK && vf_rr(top, 0) == 0, "fix_insertion (black uncle): new subtree root is black, no red-red pair left");
             VF_ASSERT(res->p != NULL && COL(res) == RED && COL(res->p) == BLK, "fix_insertion (black uncle): the returned node's parent is black, so the caller's loop stops");
             VF_ASSERT(top == (x_outer ? p : x), "fix_insertion (black uncle): the middle node of the three becomes the subtree root");
         }
     }
-    VF_REACH(ucase == 1, "red-uncle case reachable");
-    VF_REACH(ucase == 2 && !x_outer, "black-uncle inner-child (double rotation) case reachable");
-    VF_REACH(ucase == 0, "absent-uncle case reachable");
+}
+void h_s_fix_insertion(void)
+{
+    int m, pc, xo, uc, h, n = 0;
+    for (m = 0; m < 2; m++) for (pc = 0; pc < 3; pc++) for (xo = 0; xo < 2; xo++) for (uc = 0; uc < 3; uc++) for (h = 1; h <= 3; h++) {
+        if ((uc == 0 && h != 1) || (uc == 2 && h < 2)) continue;      /* shapes that cannot satisfy the black-count precondition */
+        VF_SCEN(1); n++;
+        vf_fi_case(m, pc, xo, uc, h);
+    }
+    VF_REACH(n == 72, "all neighbourhood shapes visited");
     VF_END();
 }
 #endif
@@ -227,73 +231,76 @@ void h_s_fix_insertion(void)
 #if defined(VF_S) && VF_S == 3
 /* ---- cstl_rbtree_fix_deletion(t, x, l, r): the paths through x (the l-child of its parent, or
  *      the stack stand-in for a removed leaf) have one black node too few -------------------- */
-void h_s_fix_deletion(void)
+static void vf_nephew(int idx, int a1, int a2, int red, int h, struct cstl_bintree_node * parent, int left)
+{
+    struct cstl_bintree_node * c;
+    if (!red) { c = ATOM_OR_NULL(idx, h, parent); }
+    else { vf_n[idx].c = RED; c = BNP(idx); c->p = parent; L(c) = ATOM_OR_NULL(a1, h, c); R(c) = ATOM_OR_NULL(a2, h, c); }
+    if (left) L(parent) = c; else R(parent) = c;
+}
+static void vf_fd_case(int mirror, int pcase, int stand, int h, int pc_black, int wcase, int lc, int rc)
 {
     struct cstl_bintree_node * par = BNP(0), * x, * w = BNP(2), * res;
-    struct cstl_rbtree_node standin;
-    int h = nondet_int(), before[2 * NN], nb, k, bhw, wcase = nondet_int();
-    _Bool stand = nondet_bool();
-    cstl_rbtree_color_t pc0;
-    __CPROVER_assume(h >= 1 && h <= 3 && wcase >= 0 && wcase <= 1);
-    vf_orient();
-    pc0 = nondet_bool() ? RED : BLK; vf_n[0].c = pc0;
-    /* x: a black subtree of height h (its paths are one short: the sibling side has h + 1), or the stand-in */
-    if (stand) {
-        __CPROVER_assume(h == 1);
-        x = &standin.n; standin.c = BLK; standin.n.p = par; L(par) = NULL;
-    } else {
-        __CPROVER_assume(h >= 2);
-        x = vf_mk_atom_req(1, h, par); L(par) = x;
-    }
+    static struct cstl_rbtree_node standin;
+    int before[2 * NN], nb, k;
+    const cstl_rbtree_color_t pc0 = pc_black ? BLK : RED;
+    vf_orient(mirror);
+    vf_n[0].c = pc0;
+    if (stand) { x = &standin.n; standin.c = BLK; standin.n.p = par; standin.n.l = standin.n.r = NULL; L(par) = NULL; }
+    else { x = vf_mk_atom_req(1, h, par); L(par) = x; }
     R(par) = w; w->p = par;
     if (wcase == 0) {
-        /* black sibling with children cl, cr: each absent/black subtree of height h, or a red node over two subtrees of height h */
-        int lc = nondet_int(), rc = nondet_int();
-        __CPROVER_assume(lc >= 0 && lc <= 1 && rc >= 0 && rc <= 1);
+        /* black sibling; each nephew: absent/black subtree of height h, or a red node over two such subtrees */
         vf_n[2].c = BLK;
-        if (lc == 0) { L(w) = ATOM_OR_NULL(3, h, w); } else { vf_n[3].c = RED; L(w) = BNP(3); BNP(3)->p = w; L(BNP(3)) = ATOM_OR_NULL(5, h, BNP(3)); R(BNP(3)) = ATOM_OR_NULL(6, h, BNP(3)); }
-        if (rc == 0) { R(w) = ATOM_OR_NULL(4, h, w); } else { vf_n[4].c = RED; R(w) = BNP(4); BNP(4)->p = w; L(BNP(4)) = ATOM_OR_NULL(7, h, BNP(4)); R(BNP(4)) = ATOM_OR_NULL(8, h, BNP(4)); }
+        vf_nephew(3, 5, 6, lc, h, w, 1);
+        vf_nephew(4, 7, 8, rc, h, w, 0);
     } else {
-        /* red sibling (then the parent is black) over two black nodes, each over children of the same shapes as above */
-        int lc = nondet_int(), rc = nondet_int();
-        __CPROVER_assume(pc0 == BLK && lc >= 0 && lc <= 1 && rc >= 0 && rc <= 1);
+        /* red sibling over two black nodes; the near one's children have the shapes above */
         vf_n[2].c = RED;
         vf_n[3].c = BLK; L(w) = BNP(3); BNP(3)->p = w;
         vf_n[4].c = BLK; R(w) = BNP(4); BNP(4)->p = w;
-        /* the near nephew's children matter after the first rotation */
-        if (lc == 0) { L(BNP(3)) = ATOM_OR_NULL(5, h, BNP(3)); } else { vf_n[5].c = RED; L(BNP(3)) = BNP(5); BNP(5)->p = BNP(3); L(BNP(5)) = ATOM_OR_NULL(9, h, BNP(5)); R(BNP(5)) = ATOM_OR_NULL(10, h, BNP(5)); }
-        if (rc == 0) { R(BNP(3)) = ATOM_OR_NULL(6, h, BNP(3)); } else { vf_n[6].c = RED; R(BNP(3)) = BNP(6); BNP(6)->p = BNP(3); L(BNP(6)) = ATOM_OR_NULL(11, h, BNP(6)); R(BNP(6)) = ATOM_OR_NULL(12, h, BNP(6)); }
+        vf_nephew(5, 9, 10, lc, h, BNP(3), 1);
+        vf_nephew(6, 11, 12, rc, h, BNP(3), 0);
         L(BNP(4)) = ATOM_OR_NULL(7, h, BNP(4)); R(BNP(4)) = ATOM_OR_NULL(8, h, BNP(4));
     }
-    vf_place(par);
-    bhw = vf_bh(w, 0);
-    __CPROVER_assume(bhw == h + 1);                                  /* pre: sibling side valid and one black node taller */
-    __CPROVER_assume(vf_rr(vf_top, 0) == 0);
+    vf_place(par, pcase);
+    VF_ASSERT(vf_bh(w, 0) == h + 1 && vf_rr(vf_top, 0) == 0, "fix_deletion pre-state: sibling side valid and one black node taller, no red-red pair");
     vf_nseq = 0; vf_inorder(vf_top, 0); nb = vf_nseq; for (k = 0; k < nb; k++) before[k] = vf_seq[k];
     vf_snapshot();
     res = cstl_rbtree_fix_deletion(&vf_bt, x, vf_l, vf_r);
     {
         struct cstl_bintree_node * top = *vf_slot;
+        /* which way did it go: the recolour case leaves the structure alone and makes the sibling red */
+        const _Bool recoloured = (wcase == 0) ? (lc == 0 && rc == 0) : (lc == 0 && rc == 0);
         VF_ASSERT(top != NULL && vf_links(top, vf_snap[0].n.p, 0), "fix_deletion: every child's parent link points back");
         vf_nseq = 0; vf_inorder(top, 0);
         VF_ASSERT(vf_nseq == nb, "fix_deletion: same items");
         for (k = 0; k < nb && k < vf_nseq; k++) VF_ASSERT(vf_seq[k] == before[k], "fix_deletion: the in-order sequence is unchanged");
         vf_atoms_untouched();
-        if (res == vf_bt.root && !(vf_slot == &vf_bt.root && res == par && top == par)) {
-            /* repaired: the missing black node is restored below the old position of the parent */
+        if (!recoloured) {
+            VF_ASSERT(res == vf_bt.root, "fix_deletion (rotation cases): tells the caller to stop (returns the root)");
             VF_ASSERT(vf_bh(top, 0) == h + 1 + (pc0 == BLK ? 1 : 0) && COL(top) == pc0 && vf_rr(top, 0) == 0,
                       "fix_deletion (rotation cases): every path has its black node back, subtree root keeps the parent's colour, no red-red pair");
         } else {
-            /* sibling recoloured: both sides now agree, the deficit moves up to the node returned */
-            struct cstl_bintree_node * q = res;
-            VF_ASSERT(q != NULL && !vf_atom[IDX(q)] && (stand ? L(q) == NULL : L(q) == x), "fix_deletion (recolour case): continues from x's parent");
-            VF_ASSERT(vf_bh(R(q), 0) == h, "fix_deletion (recolour case): the sibling side lost one black node, both sides agree");
-            VF_ASSERT(vf_rr(R(q), 0) == 0, "fix_deletion (recolour case): no red-red pair below the returned node's other child");
-            VF_ASSERT(COL(R(q)) == RED, "fix_deletion (recolour case): the sibling is red");
+            VF_ASSERT(res == par && (stand ? L(par) == NULL : L(par) == x), "fix_deletion (recolour case): continues from x's parent");
+            VF_ASSERT(R(par) != NULL && COL(R(par)) == RED && vf_bh(R(par), 0) == h && vf_rr(R(par), 0) == 0,
+                      "fix_deletion (recolour case): the sibling is red, its side lost one black node so both sides agree, no red-red pair below it");
+            VF_ASSERT(wcase == 0 ? (top == par && COL(par) == pc0) : (top == w && COL(w) == BLK && COL(par) == RED && L(w) == par),
+                      "fix_deletion (recolour case): after a red sibling the old parent is red (the caller blackens it), otherwise its colour is unchanged");
         }
     }
-    VF_REACH(wcase == 1, "red-sibling case reachable");
-    VF_REACH(stand, "stand-in (removed leaf) case reachable");
+}
+void h_s_fix_deletion(void)
+{
+    int m, pc, st, h, pb, wc, lc, rc, n = 0;
+    for (m = 0; m < 2; m++) for (pc = 0; pc < 3; pc++) for (st = 0; st < 2; st++) for (h = 1; h <= 3; h++)
+    for (pb = 0; pb < 2; pb++) for (wc = 0; wc < 2; wc++) for (lc = 0; lc < 2; lc++) for (rc = 0; rc < 2; rc++) {
+        if ((st && h != 1) || (!st && h < 2)) continue;       /* a removed leaf leaves height 1; a real black subtree has at least 2 */
+        if (wc == 1 && !pb) continue;                          /* a red sibling has a black parent */
+        VF_SCEN(1); n++;
+        vf_fd_case(m, pc, st, h, pb, wc, lc, rc);
+    }
+    VF_REACH(n == 216, "all neighbourhood shapes visited");
     VF_END();
 }
 #endif
